@@ -209,7 +209,43 @@ void gen_table(Plan& p, Rng& r, bool hostile)
         p.steps.push_back(mk(ops[r.weighted(w)], r, 4, draw_size(r)));
 }
 
-void gen_atomic(Plan& p, Rng& r)
+void gen_hostile(Plan& p, Rng& r)
+{
+    // C15: ordinary operations mixed with hostile ones; values come from the
+    // hostile generator flags (more than 8 slots, NUL bytes, long labels)
+    p.cfg.checks = CK_MODEL | CK_HOSTILE;
+    p.cfg.gf.many_slots = true;
+    p.cfg.gf.nul_bytes = true;
+    p.cfg.gf.long_labels = true;
+    p.cfg.gf.big = r.chance(1, 3);
+    int n = 8 + (int)r.below(16);
+    p.steps.push_back(mk("create_track", r, 0, draw_size(r)));
+    p.steps.push_back(mk("create_root", r, 0, 1));
+    p.steps.push_back(mk("create_sub", r, 1, 1));
+    static const char* ops[] = {"h_index", "h_waveform", "h_snapshot", "h_lookup", "h_after", "h_stale_track",
+                                "h_stale_crate", "h_names", "create_track", "update", "set", "remove_track",
+                                "create_root", "create_sub", "create_sub_after", "set_name", "set_parent",
+                                "remove_crate", "add_track", "remove_from", "clear", "reload", "rewrite"};
+    std::vector<unsigned> w = {12, 6, 10, 5, 6, 8, 8, 4, 6, 4, 12, 6, 3, 6, 3, 2, 6, 6, 5, 2, 1, 2, 2};
+    for (auto& x : w)
+        if (r.chance(1, 5))
+            x = 0;
+    for (int i = 0; i < n; ++i)
+    {
+        size_t k = r.weighted(w);
+        if (std::string(ops[k]) == "set")
+            p.steps.push_back(track_step(r, draw_size(r)));
+        else
+        {
+            Step s = mk(ops[k], r, 3, draw_size(r));
+            if (s.op == "set_parent" && r.chance(1, 5))
+                s.a[1] = -1;
+            p.steps.push_back(s);
+        }
+    }
+}
+
+void gen_atomic(Plan& p, Rng& r, uint64_t index)
 {
     p.cfg.on_disk = true;
     p.cfg.checks = CK_MODEL | CK_DIFF;
@@ -218,6 +254,7 @@ void gen_atomic(Plan& p, Rng& r)
     p.cfg.gf.odd_grids = false;
     p.cfg.gf.no_path = false;
     p.cfg.gf.big = r.chance(1, 6);
+    p.cfg.gf.rich = !r.chance(1, 4);  // mostly fully analysed tracks: conditional statements of setters all run
     // prefix: a short fault-free history
     int n = 2 + (int)r.below(7);
     p.steps.push_back(mk("create_track", r, 0, draw_size(r)));
@@ -233,17 +270,25 @@ void gen_atomic(Plan& p, Rng& r)
         else
             p.steps.push_back(mk(pre[k], r, 3, draw_size(r)));
     }
-    // probe: every public mutating operation
-    static const char* probes[] = {"create_track", "update", "remove_track", "set", "create_root",
+    // probe: every public mutating operation, stratified by the run index so
+    // that even a small batch visits every operation and every field setter
+    static const char* probes[] = {"create_track", "update", "remove_track", "create_root",
                                    "create_root_after", "create_sub", "create_sub_after", "set_name",
                                    "set_parent", "remove_crate", "add_track", "remove_from", "clear"};
-    std::vector<unsigned> w = {8, 8, 6, 40, 4, 3, 6, 4, 5, 7, 6, 6, 4, 3};
-    size_t k = r.weighted(w);
-    if (std::string(probes[k]) == "set")
-        p.steps.push_back(track_step(r, draw_size(r)));
+    const uint64_t n_plain = sizeof probes / sizeof *probes, n_set = 27;
+    uint64_t kind = index % (n_plain + n_set);
+    if (kind >= n_plain)
+    {
+        Step s = mk("set", r, 4, draw_size(r));
+        uint64_t f = kind - n_plain;  // 0..24: fields, 25: hot_cue_at, 26: loop_at
+        s.a[1] = f < 25 ? (int64_t)f : (f == 25 ? F_HOT_CUE_AT : F_LOOP_AT);
+        if (s.a[1] == F_FILE_BYTES)
+            s.a[1] = F_TITLE;
+        p.steps.push_back(s);
+    }
     else
     {
-        Step s = mk(probes[k], r, 3, draw_size(r));
+        Step s = mk(probes[kind], r, 3, draw_size(r));
         if (s.op == "set_parent" && r.chance(1, 5))
             s.a[1] = -1;
         p.steps.push_back(s);
@@ -256,7 +301,7 @@ std::vector<std::string> all_profiles()
     return {"tracks", "crates", "members", "mixed"};
 }
 
-Plan generate_plan(const std::string& profile_in, uint64_t seed)
+Plan generate_plan(const std::string& profile_in, uint64_t seed, uint64_t index)
 {
     Plan p;
     p.seed = seed;
@@ -292,11 +337,13 @@ Plan generate_plan(const std::string& profile_in, uint64_t seed)
     else if (profile == "mixed")
         gen_mixed(p, r);
     else if (profile == "atomic")
-        gen_atomic(p, r);
+        gen_atomic(p, r, index);
     else if (profile == "table")
         gen_table(p, r, false);
     else if (profile == "tableh")
         gen_table(p, r, true);
+    else if (profile == "hostile")
+        gen_hostile(p, r);
     else
         throw std::runtime_error("unknown profile " + profile_in);
     if (disk)
